@@ -102,6 +102,12 @@ CHECKS = {
         note="fresh memory on the hook path = new small artifact with hasher seed derived from the search seed",
         ref="DESIGN.md 6 C19",
     ),
+    "C14": dict(
+        technique="grammar-based and mutation-based fuzzing with proptest (oracle-written FEN/SAN + structural mutations, alphabets, arbitrary Unicode) in two build profiles, plus generated malformed UCI sessions against the real process",
+        text="Generated-input search: every generated string is read as FEN and as SAN under catch_unwind in the checked build (debug assertions + overflow checks) and in a plain release build (child process); generated UCI sessions of malformed lines must keep answering isready and exit 0 on quit.",
+        note="input size bounded (<= 1 MB) so hangs cannot hide; go is only sent at the start position",
+        ref="DESIGN.md 6 C14",
+    ),
 }
 
 NOT_YET = {
